@@ -153,6 +153,7 @@ func runC18(c *Ctx, r *Report, tier string) {
 			switch {
 			case l.Term == "Group.Hidden(Command.Group("+cmd+"))" && !l.Pos, l.Term == "call:strings.HasPrefix(Command.Name("+cmd+"), P2)" && l.Pos:
 			case strings.HasPrefix(l.Term, "lt("):
+			case l.Pos && strings.HasPrefix(l.Term, "nonempty(Command.commands(parseState.command(P1)))"): // "there are subcommands at all": what the loop tests anyway
 			case strings.HasPrefix(l.Term, "eq(") && strings.Contains(l.Term, "Group.data(Command.Group("+cmd) && !l.Pos:
 			default:
 				extra = append(extra, l.String())
@@ -360,7 +361,19 @@ func runC18(c *Ctx, r *Report, tier string) {
 	}
 	// words after a terminator: all of them but the last (the word being completed) have been typed
 	for _, in := range c.instrs(cp, c.isCallTo("(*completion).skipPositional")) {
-		t := c.term(in.(*ssa.Call).Call.Args[2])
+		var t string
+		if nOp := c.argNamed(in.(*ssa.Call), "n"); nOp != nil {
+			t = c.term(nOp)
+		} else if spf := c.Fn("(*completion).skipPositional"); spf != nil {
+			// the count derived by skipPositional itself: the lower bound it re-slices the queue from, in the caller's terms
+			for _, st := range c.storesTo(c.mustField(r, "parseState", "positional")) {
+				if c.actsFor(st.Fn, spf) {
+					if sv := c.term(st.Store.Val); strings.HasPrefix(sv, "slice(parseState.positional(P1), ") {
+						t = strings.ReplaceAll(strings.TrimSuffix(strings.TrimPrefix(sv, "slice(parseState.positional(P1), "), ", _)"), "(P1)", "("+c.term(in.(*ssa.Call).Call.Args[1])+")")
+					}
+				}
+			}
+		}
 		r.Check(strings.HasPrefix(t, "(len(parseState.args(") && strings.HasSuffix(t, ")) - 1)"), "TOKENS", cpn, "positionals skipped for the words already typed", c.ipos(in), "skipPositional(s, len(s.args)-1): the last word is the one being completed", "skips "+trunc(t, 80)+" positionals: the partial last word is counted as typed")
 	}
 	// … and exactly that many are dropped from the queue, at once: the queue is re-sliced from the count (or
@@ -510,6 +523,7 @@ func runC18(c *Ctx, r *Report, tier string) {
 	allow := append(append([]*npAllow{}, parseAllow...),
 		&npAllow{Func: "(*completion).complete", Construct: "index parseState.args(new:parseState)[(len(parseState.args(new:parseState)) - 1)]", Max: 1, Reason: "args is replaced by [\"\"] when empty on entry and the walk loop runs only while len(args) > 1 (pop removes one element), so at least one element remains"},
 		&npAllow{Func: "(*completion).skipPositional", Construct: "slice parseState.positional(P1)[P2:_]", Max: 1, Reason: "n = len(s.args)-1 ≥ 0 at both call sites (inside the loop len(args) ≥ 1 after pop) and n < len(positional) is tested"},
+		&npAllow{Func: "(*completion).skipPositional", Construct: "slice parseState.positional(P1)[(len(parseState.args(P1)) - 1):_]", Max: 1, Reason: "the same count derived inside: len(s.args)-1 ≥ 0 at both call sites (inside the loop len(args) ≥ 1 after pop) and the bound is tested against len(positional)"},
 		&npAllow{Func: "(*completion).complete", Construct: "index parseState.positional(new:parseState)[0]", Max: 0, Reason: ""},
 	)
 	c.runNP(r, "NP", scope, allow)
